@@ -200,3 +200,21 @@ PROPS["C01"]["kinds"] = ["dr", "c01", "tls"]
 PROPS["C01"]["rule"] += " c01: whole conversations - MAIL with every parameter (SIZE below/at/above the real size, BODY, SMTPUTF8, RET/ENVID, AUTH) x RCPT parameters x SMTP/LMTP/LMTP-session/HELO x size limit none/at/above x an earlier transaction on the same connection, then DATA with dot-stuffed, binary and empty bodies; the octets the backend reads are stated by the generator (expect-last-data). tls: DATA transactions before and after a real STARTTLS upgrade (the message read inside TLS must be the octets sent inside TLS)."
 PROPS["C01"]["trusted_base"] = PROPS["C01"]["trusted_base"] + CONV_TB + TLS_TB
 PROPS["C02"]["kinds"] = ["c02", "dr", "tls"]
+
+# kind tmo (finding F30): Server.ReadTimeout expires inside a message body, on real sockets (no model is run)
+TMO_RULE = (" tmo: the REAL server (smtp.NewServer, ReadTimeout 220 ms) on a TCP loopback listener (and, for a subset, on net.Pipe), a scripted client that"
+            " sends the prelude and the first part of a DATA message / BDAT chunk in one write, stops, waits until the server has answered the"
+            " message with its error reply (refused chunks: until a passive tap on the server's side of the socket has seen the first Read time out;"
+            " no fixed sleep decides the outcome) and then at once sends the rest: bait command lines, the end marker / the remaining chunk octets,"
+            " RSET, MAIL, NOOP, QUIT. {DATA (backend reads all / stops after 5 octets and accepts), accepted BDAT chunk LAST / not LAST, refused BDAT"
+            " chunk (no RCPT, no MAIL, bad second argument, over MaxMessageBytes)} x {SMTP, LMTP, LMTP per-recipient} x {time-out, control: same script,"
+            " ReadTimeout 3 s, pause 120 ms}. Oracle on the recorded wire and backend callbacks (same encoding and monitors as the conv kinds): no bait"
+            " address reaches Mail/Rcpt, the exact list of reply codes, after the reply to the message that timed out the server says nothing more and"
+            " closes (the client sees the end of the stream), no reader reports EOF and the replies to that message are negative (C07); in the control"
+            " cases the whole message is delivered with EOF and the commands behind it are executed. Covers what the scripted transport of the conv"
+            " kinds cannot express: a read failure that REPEATS until the deadline is armed again.")
+for _p in ("C02", "C05", "C07"):
+    PROPS[_p]["kinds"] = ["tmo"] + PROPS[_p]["kinds"]   # first: a violation is reported with a real-socket case
+    PROPS[_p]["rule"] = PROPS[_p]["rule"] + TMO_RULE
+PROPS["C02"]["rule"] += " c02 also: a read failure inside the message that repeats 1, 2 or 3 times (scripted equivalent of an expired deadline) x backend {reads all, stops early and accepts} x {timeout, error}: closes iff the drain cannot reach the end marker."
+PROPS["C05"]["rule"] += " c05 also: a read failure inside a chunk that repeats 1, 2 or 3 times x {accepted (SMTP, LMTP, LMTP per-recipient), refused (no MAIL, bad LAST token, over the limit)} x {LAST, not LAST}: an accepted chunk survives one failure (the discard skips the rest), a refused one none."
